@@ -14,6 +14,14 @@ def run(ctx, replay):
     r = ctx.tlc_mc("CircularQueue", "CircularQueue_MC_nolock.cfg", timeout=300, must_hold=False)
     if r["ok"]:
         raise vlib.Inconclusive("vacuity guard: the model without the lock should violate the property")
+    # any capacity, any number of operations: CircularQueue_Ind's invariant is inductive (Apalache, integers unbounded), holds
+    # initially, implies the C18 statements, is NOT inductive for an off-by-one eviction (control); TLC binds the abstraction
+    # to CircularQueue step by step on the bounded model
+    ctx.apalache_inductive("CircularQueue_Ind", "ConstInit", "IndInit", "IndInv")
+    ctx.apalache_inductive("CircularQueue_Ind", "ConstInit", "Init", "IndInv")
+    ctx.apalache_inductive("CircularQueue_Ind", "ConstInit", "IndInit", "Implied")
+    ctx.apalache_inductive("CircularQueue_Ind", "ConstInitLate", "IndInit", "IndInv", must_hold=False)
+    ctx.tlc_mc("CircularQueue_IndEq", "CircularQueue_IndEq_%s.cfg" % ("n3" if ctx.thorough() else "n2"), timeout=900)
     racelog = ctx.path("race")
     fatal = []
 
